@@ -68,6 +68,27 @@ def make_classifier():
     return SigClassifier
 
 
+from sktime.regression.base import BaseRegressor  # noqa: E402
+
+
+class SigRegressor(BaseRegressor):
+    """Regression twin of SigClassifier: real-valued predictions (never whole numbers) that encode the training
+    set and the instance predicted."""
+
+    def __init__(self, sid=1):
+        self.sid = sid
+        super(SigRegressor, self).__init__()
+
+    def fit(self, X, y):
+        self.sig_ = sum(int(round(X["dim_0"].iloc[i].iloc[0])) for i in range(len(X)))
+        self._is_fitted = True
+        return self
+
+    def predict(self, X):
+        ids = [int(round(X["dim_0"].iloc[i].iloc[0])) for i in range(len(X))]
+        return np.array([((self.sig_ * 7 + self.sid * 3 + i) % 5) + 0.375 for i in ids])
+
+
 def dataset(d):
     """Instance ids 100*d + i are the (constant) values of the series, so records are self-describing."""
     n = n_of(d)
@@ -312,6 +333,35 @@ def ram_stores_independent():
                  for f, (tr, te) in enumerate(cv2.split(np.arange(n_of(1))))]
         if again != want2:
             return "after a second run into the same in-memory store it returns %s, the second run stored %s" % (again[:1], want2[:1])
+        # a regression benchmark on a whole-number target (counts): the stored predictions are the real numbers
+        # the strategy predicted, in the in-memory store and on disk alike
+        from sktime.benchmarking.strategies import TSRStrategy
+        from sktime.benchmarking.tasks import TSRTask
+        from sktime.benchmarking.results import HDDResults
+        import tempfile
+        import shutil
+        tmp = tempfile.mkdtemp(prefix="c19_reg_")
+        try:
+            for store in (RAMResults(), HDDResults(path=tmp)):
+                data = dataset(1)
+                data["class_val"] = np.asarray([int(v) for v in data["class_val"]], dtype="int64") * 3 + 1
+                cvr = KFold(n_splits=2)
+                Orchestrator(tasks=[TSRTask(target="class_val")], datasets=[RAMDataset(data, name="d1")],
+                             strategies=[TSRStrategy(SigRegressor(sid=1), name="r1")], cv=cvr, results=store).fit_predict(
+                    save_fitted_strategies=False, predict_on_train=True)
+                for which in ("test", "train"):
+                    got = [(f, [int(i) for i in pw.index], [float(v) for v in pw.y_true], [float(v) for v in pw.y_pred])
+                           for f in range(2) for pw in store.load_predictions(cv_fold=f, train_or_test=which)]
+                    wantr = []
+                    for f, (tr, te) in enumerate(cvr.split(np.arange(n_of(1)))):
+                        part = te if which == "test" else tr
+                        wantr.append((f, [int(i) for i in part], [float(((100 + q) % 2) * 3 + 1) for q in part],
+                                      [float(v) + 0.375 for v in honest(1, 1, list(tr), list(part))]))
+                    if got != wantr:
+                        return "regression on a whole-number target, %s, %s records: returned %s, predicted were %s" % (
+                            type(store).__name__, which, got[:1], wantr[:1])
+        finally:
+            shutil.rmtree(tmp, ignore_errors=True)
         return None
     finally:
         NFOLDS.clear()
